@@ -1330,3 +1330,45 @@ mutant("c20-frames-skipped-when-directory-looks-complete", "C20", "R20.c", GIF,
        "    for i, scheduled_operation in enumerate(schedule_history, start=1):\n        dispatcher.dispatch(",
        "    if len(os.listdir(frames_dir)) == len(schedule_history):\n        return\n    for i, scheduled_operation in enumerate(schedule_history, start=1):\n        dispatcher.dispatch(",
        "round-9 seed C20-p1HI: frames of another history of the same length are reused")
+
+# ------------------------------------------------------------------ round-10 seeds distilled (both ways)
+mutant("c10-default-condition-rejects", "C10", "R10.e", DISP,
+       "        condition: Callable[[DispatcherObserver], bool] = lambda _: True,",
+       "        condition: Callable[[DispatcherObserver], bool] = lambda o: not getattr(o, \"detached\", False),",
+       "round-10 seed C10-b2FB: a default condition that can reject a subscribed observer of the type")
+refactor("c10-r-default-condition-named", "C10", DISP,
+         "        condition: Callable[[DispatcherObserver], bool] = lambda _: True,",
+         "        condition: Callable[[DispatcherObserver], bool] = lambda existing_observer: True,",
+         "another spelling of the always-true default")
+mutant("c07-dominance-tie-kept", "C07", "R07.m", FILT,
+       "            is_dominated = start_time >= min_machine_end_times[machine_id]",
+       "            is_dominated = start_time > min_machine_end_times[machine_id]",
+       "round-10 seed C07-b1FC: a start exactly at the earliest completion counts as not dominated")
+refactor("c07-r-dominance-flipped", "C07", FILT,
+         "            is_dominated = start_time >= min_machine_end_times[machine_id]",
+         "            is_dominated = min_machine_end_times[machine_id] <= start_time",
+         "the same test with the operands exchanged")
+mutant("c05-clock-over-raw-ready", "C05", "R05.g", DISP,
+       "        available_operations = self.available_operations()\n        current_time = self.min_start_time(available_operations)",
+       "        available_operations = self.raw_ready_operations()\n        current_time = self.min_start_time(available_operations)",
+       "round-10 seed C05-b2FD: the clock ignores the installed filter")
+mutant("c14-machines-normalised", "C14", "R14.l", INST,
+       "                    Operation(duration=duration, machines=machines)",
+       "                    Operation(duration=duration, machines=machines if isinstance(machines, int) else sorted(set(machines)))",
+       "round-10 seed C14-b2FF: machine alternatives sorted and de-duplicated on the way in")
+refactor("c14-r-machines-copied", "C14", INST,
+         "                    Operation(duration=duration, machines=machines)",
+         "                    Operation(duration=duration, machines=machines if isinstance(machines, int) else list(machines))",
+         "a copy keeps order and multiplicity")
+_v("c04-tie-by-isclose", "C04", "mutant", "R04.c", [
+    (RULES, "import random\n", "import math\nimport random\n"),
+    (RULES, "                if scores[operation.job_id] == best_score", "                if math.isclose(scores[operation.job_id], best_score)"),
+], "round-10 seed C04-b1FC: approximate comparison of scores")
+mutant("c20-history-sorted-before-replay", "C20", "R20.c", GIF,
+       "        dispatcher = Dispatcher(instance)\n        makespan = max(",
+       "        dispatcher = Dispatcher(instance)\n        schedule_history = sorted(schedule_history, key=lambda so: (so.start_time, so.operation.operation_id))\n        makespan = max(",
+       "round-10 seed C02-b2FB: the recorded history is re-ordered before it is replayed")
+mutant("c16-disjunctive-pairs-skipped", "C16", "R16.e", BDG,
+       "        for node1, node2 in itertools.combinations(machine, 2):",
+       "        for node1, node2 in itertools.combinations(machine, 2):\n            if node1.operation.job_id == node2.operation.job_id:\n                continue",
+       "round-10 seed C16-b2FE: some pairs of a machine get no disjunctive edge")
